@@ -23,7 +23,7 @@ from hypothesis import strategies as st
 
 import cutplace
 from cutplace import errors, interface, rowio
-from vlib.runner import h64
+from vlib.runner import h64, reused_dir
 
 PROPERTY_ID = "C12"
 RULE = (
@@ -114,6 +114,8 @@ def cid_rows(config, columns):
         ["D", "Line delimiter", config["line"]],
         ["D", "Encoding", config.get("encoding", "UTF-8")],
     ]
+    if config.get("header"):
+        rows.append(["D", "Header", str(config["header"])])
     for index in range(columns):
         rows.append(["F", "c%d" % (index + 1), "", "X", "", "Text"])
     return rows
@@ -142,12 +144,14 @@ def roundtrip_validio(cid, table):
     finally:
         writer.close()
     text = target.getvalue()
-    return text, list(cutplace.rows(cid, io.StringIO(text, newline="")))
+    # with a header the reader hands back the rows behind it; the header rows are part of what was written
+    header = cid.data_format.header
+    return text, [list(row) for row in table[:header]] + list(cutplace.rows(cid, io.StringIO(text, newline="")))
 
 
 def roundtrip_path(cid, table):
     """Through files: the writer and the reader open the path themselves (encoding and newline handling are theirs)."""
-    folder = tempfile.mkdtemp(prefix="c12-")
+    folder = reused_dir("c12")
     try:
         path = os.path.join(folder, "table.csv")
         writer = rowio.DelimitedRowWriter(path, cid.data_format)
@@ -413,6 +417,12 @@ def _enumeration_shard(args):
         local.fails = sub.fails  # so that only the first failure of a signature is minimised
         for table in systematic_tables(config) + magic_tables(config, number):
             check_case(local, {"config": config, "table": table, "columns": 1}, shrink=True)
+        # the same tables behind a declared header of 1 or 2 rows (every 4th configuration): what a header row holds
+        # - line breaks, quotes, delimiters - must not shift the rows behind it
+        if number % 4 == 0:
+            with_header = dict(config, header=1 + number // 4 % 2)
+            for table in systematic_tables(config)[7:]:
+                check_case(local, {"config": with_header, "table": table, "columns": 1}, shrink=True)
         for table_number in range(derived_per_config):
             table, columns = derived_table(config, seed, number, table_number)
             check_case(local, {"config": config, "table": table, "columns": columns}, shrink=True)
@@ -447,6 +457,9 @@ def table_cases(draw):
         table[0][0] = draw(st.sampled_from(MAGIC_CELLS))
         if draw(st.booleans()):
             table[0][1:] = [""] * (columns - 1)
+    # header rows are rows like any other for the writer and for the csv layer (they may hold line breaks and quotes)
+    if draw(st.integers(0, 3)) == 0:
+        config["header"] = draw(st.integers(1, 2))
     # the declared encoding matters where cutplace opens the file itself (the round trip through a path)
     encoding = draw(st.sampled_from(["UTF-8", "UTF-8", "UTF-8", "utf-16", "utf-8-sig", "utf-32", "utf-16-le", "cp1252",
                                      "latin-1", "cp850"]))
